@@ -308,7 +308,7 @@ func (c *userTypesCollector) collect(node internalSchema.Node) {
 	case *internalSchema.MixedValueNode:
 		for _, ut := range strings.Split(n.Value().String(), "|") {
 			s := strings.TrimSpace(ut)
-			if s[0] == '@' {
+			if s != "" && s[0] == '@' {
 				c.addType(s)
 			}
 		}
@@ -327,7 +327,7 @@ func (c *userTypesCollector) collectUserTypesFromTypesListConstraint(node intern
 	}
 
 	for _, name := range list.Names() {
-		if name[0] == '@' {
+		if name != "" && name[0] == '@' {
 			c.addType(name)
 		}
 	}
@@ -345,7 +345,7 @@ func (c *userTypesCollector) collectUserTypesFromTypeConstraint(node internalSch
 	}
 
 	name := typ.Bytes().Unquote().String()
-	if name[0] == '@' {
+	if name != "" && name[0] == '@' {
 		c.addType(name)
 	}
 }
@@ -362,7 +362,7 @@ func (c *userTypesCollector) collectUserTypesFromAllOfConstraint(node internalSc
 	}
 
 	for _, name := range allOf.SchemaNames() {
-		if name[0] == '@' {
+		if name != "" && name[0] == '@' {
 			c.addType(name)
 		}
 	}
@@ -389,7 +389,7 @@ func (c *userTypesCollector) collectUserTypesObjectNode(node *internalSchema.Obj
 		k := v.Key
 
 		if v.IsShortcut {
-			if k[0] == '@' {
+			if k != "" && k[0] == '@' {
 				c.addType(k)
 			}
 		}
